@@ -42,7 +42,7 @@ def run(tier, out):
         # intensity or the traffic -- each footprint must still be the energy times the intensity that applies NOW
         n_hist = 25 if tier == "quick" else 500
         edited = numcheck.edited_events(ns, range(base + 70000, base + 70000 + n_hist), 2,
-                                        kinds=("ci", "svci", "net", "pue", "starts", "overload", "burst"), simulate=True, with_fixed=True)
+                                        kinds=("ci", "svci", "net", "pue", "starts", "overload", "overload", "burst"), simulate=True, with_fixed=True)
         for e in edited:
             e["tid"] += 3 * 10 ** 6
         events += edited
